@@ -502,4 +502,25 @@ def stepTop (fuel : Nat) (s : State) : Top → State
 def run (fuel : Nat) (prog : List Top) : Trace :=
   (prog.foldl (stepTop fuel) {}).trace.reverse
 
+/-! ## the function `pmodel events` runs -/
+
+/-- fuel of one `events_run`: every turn of the loops runs a callback or ends the run, and callbacks beyond
+`cbCap` end it (`rc = 98`) -/
+def runFuel : Nat := cbCap + 4
+
+/-- one input line: the step itself, and the events it emitted (oldest first), which is what the line shows
+before ` | `.  The event log is cut after every line (`stepTop` does not read it: `stepTop_app` in
+`Proofs/EventsStep.lean`). -/
+def stepOp (s : State) (t : Top) : State × List Ev :=
+  let s1 := stepTop runFuel { s with trace := [] } t
+  ({ s1 with trace := [] }, s1.trace.reverse)
+
+/-- final state and the printed event lists, line by line -/
+def runOps (s : State) : List Top → State × List (List Ev)
+  | [] => (s, [])
+  | t :: ts =>
+    let r := stepOp s t
+    let rs := runOps r.1 ts
+    (rs.1, r.2 :: rs.2)
+
 end Percival.Model.Events
